@@ -91,6 +91,18 @@ impl ClientCodec {
     }
 }
 
+/// Verification hook: runs the transparency codec over `frames`, keeping its state
+/// from one frame to the next, exactly as `message()` does
+#[cfg(feature = "verif-hooks")]
+pub(crate) fn verif_codec_encode(frames: &[&[u8]]) -> Vec<u8> {
+    let mut codec = ClientCodec::new();
+    let mut out = Vec::new();
+    for frame in frames {
+        codec.encode(frame, &mut out);
+    }
+    out
+}
+
 #[derive(Debug, Copy, Clone)]
 #[allow(clippy::enum_variant_names)]
 enum CodecStatus {
